@@ -6,6 +6,12 @@ ENGINES = [
 ]
 NOT_BUILT_REASON = {}
 META = {
+    "C06": {
+        "engine": "vkit (E2)",
+        "technique": "exhaustive enumeration of issuance configurations (every blind subset) for honest runs; exhaustive single-leaf alteration / cross-run substitution of both protocol messages",
+        "text": "Honest part: attribute counts up to the number of bases, every subset of random-blind indices, keyshare on/off, witness on/off, toy and 1024-bit keys through the real NewCredentialBuilder / CommitToSecretAndProve / ProofList.Verify / IssueSignature / ConstructCredential: credential produced, signature verifies over exactly (secret, attributes), blind attribute = sum of shares, credential can be shown. Deviation part: every leaf of IssueCommitmentMessage and IssueSignatureMessage with {+1, =0, parallel-run value, other-key value, deleted}, nonce/context altered or replayed: no credential may result and no party may panic.",
+        "note": "With a keyshare contribution the issuer-side commitment proof check is C14's. 2048-bit keys not used here (cost of prime search per issuance).",
+    },
     "C13": {
         "engine": "vkit (E2) + venv (E3)",
         "technique": "exhaustive enumeration of (splitter, sign, factor, difference) statements around the boundary and at 2^k differences, every three-square table entry, combinations; environment-answer deviations",
